@@ -20,7 +20,7 @@ EXCL = {
     "C14": (),
     "C15": (),
     "C16": (),
-    "C17": ("matrix_sched_preempt_blocked",),
+    "C17": (),
     "C20": (),
 }
 KNOWN_EXCLUSIONS = ("jockey_capacity",)
